@@ -18,6 +18,7 @@
   "native_replay": false,
   "object_bits": 10,
   "timeout": 900,
+  "timeout_thorough": 3000,
   "weight_gb": 4
 }
 @*/
@@ -120,7 +121,7 @@ int32_t tls13TranscriptHashUpdate(ssl_t *ssl, const unsigned char *in, psSize_t 
     P(C18_fragment_index_stays_inside_the_buffer, g_ssl.fragMessage == NULL || g_ssl.fragIndex <= g_ssl.fragTotal) \
     P(C18_pending_buffer_is_exactly_frag_total,   g_ssl.fragMessage == NULL || __CPROVER_OBJECT_SIZE(g_ssl.fragMessage) == g_ssl.fragTotal) \
     P(C18_incomplete_fragment_is_success_without_parsing, IMPLIES(g_in.fragPending && g_in.fragIndex + g_in.len < g_in.fragTotal, RET == MATRIXSSL_SUCCESS && gh.calls == 0 && g_ssl.fragIndex == g_in.fragIndex + g_in.len)) \
-    P(C18_reassembled_message_is_parsed_from_the_buffer, IMPLIES(g_in.fragPending && g_in.fragIndex + g_in.len >= g_in.fragTotal && gh.calls >= 1, \
+    P(C18_reassembled_message_is_parsed_from_the_buffer, IMPLIES(g_in.fragPending && g_in.fragIndex + g_in.len >= g_in.fragTotal && gh.calls >= 1 && gh.state_at[0] == gh.entry_state /* the first parser call is the one for the reassembled message (NewSessionTicket and HelloRequest are handled inline, without a parser) */, \
           __CPROVER_same_object(gh.msg_start[0], g_ssl.fragMessage) && __CPROVER_POINTER_OFFSET(gh.msg_start[0]) == 4 && __CPROVER_POINTER_OFFSET(gh.msg_end[0]) == g_in.fragTotal)) \
     P(C19_alloc_failure_is_internal_error,        IMPLIES(RET == MATRIXSSL_ERROR && g_ssl.err == SSL_ALERT_INTERNAL_ERROR && gh.calls == 0 && !g_in.fragPending, g_ssl.fragMessage == NULL || g_in.snap_rc <= 0))
 
@@ -181,7 +182,7 @@ HARNESS_BEGIN
         int32 vr_ret = parseSSLHandshake(&g_ssl, (char *) g_buf, in.len);
         POSTS(NATIVE_CHECK)
 #ifdef CANARY
-        PLAIN_ASSERT(CANARY, gh.calls == 0 && g_ssl.err != SSL_ALERT_UNEXPECTED_MESSAGE && g_ssl.err != SSL_ALERT_NO_RENEGOTIATION)
+        PLAIN_ASSERT(CANARY, gh.calls == 0 && vr_ret == MATRIXSSL_ERROR && (g_ssl.err == SSL_ALERT_UNEXPECTED_MESSAGE || g_ssl.err == SSL_ALERT_NO_RENEGOTIATION))   /* must fail: every entry state has a path that ends otherwise (a parser call, an incomplete fragment, a decode error) */
 #endif
     }
 HARNESS_END
